@@ -121,7 +121,8 @@ DESCR = {"end": "segment end is the interval's right abscissa", "left": "cubic p
          "segments": "one cubic per knot interval"}
 
 
-def exact_obligations(e, n):
+def exact_obligations(e, n, group=None):
+    """group=(k, K): only the branch patterns with index % K == k (used by the parallel parts)"""
     xs, ys = sl.rvars(n)
     pre = pre_increasing(xs)
     wt = {("x%d" % i): xs[i] for i in range(n)}
@@ -134,8 +135,11 @@ def exact_obligations(e, n):
         return
     replay = make_replay(e, n, xs, ys)
     nice = prefer_nice(xs, ys)
-    e.rep.self_tests["spline_paths_n%d" % n] = len(res)
-    for (p, segs) in res:
+    if group is None or group[0] == 0:
+        e.rep.self_tests["spline_paths_n%d" % n] = len(res)
+    for pidx, (p, segs) in enumerate(res):
+        if group is not None and pidx % group[1] != group[0]:
+            continue
         tag = "spline[n=%d,path=%s]" % (n, "".join("T" if d else "F" for d in p.decisions))
         assum = pre + list(p.conds) + list(p.side)
         if segs is None:
@@ -145,7 +149,7 @@ def exact_obligations(e, n):
                     witness_terms=wt, role="spline-panic", replay=replay, prefer=nice)
             continue
         # divisions: no divisor can vanish under the precondition on this path
-        if p.nonzero:
+        if p.nonzero and (group is None or len(group) < 4 or group[2] == 0):
             e.prove(tag + ":divisors-nonzero",
                     "on this path no divisor of the construction is zero for strictly increasing abscissae (%d divisions)" % len(p.nonzero),
                     assum, z3.And(*[d != 0 for d in p.nonzero]), dom_name="real", functions=FUNCS, witness_terms=wt,
@@ -171,7 +175,9 @@ def exact_obligations(e, n):
             goals.append(("endslope@0", sl.pdev(coef[0], xs[0]) == z3.Q(3, 2) * slopes[0] - z3.Q(1, 2) * fmid[0]))
             goals.append(("endslope@%d" % (n - 1),
                           sl.pdev(coef[-1], xs[-1]) == z3.Q(3, 2) * slopes[-1] - z3.Q(1, 2) * fmid[-1]))
-        for (nm, g) in goals:
+        for gidx, (nm, g) in enumerate(goals):
+            if group is not None and len(group) == 4 and gidx % group[3] != group[2]:
+                continue
             e.prove("%s:%s" % (tag, nm),
                     DESCR[[k for k in DESCR if nm.startswith(k)][0]] +
                     " -- exact arithmetic, all real knots with strictly increasing x, %d knots, this f_dx branch pattern" % n,
@@ -254,14 +260,30 @@ def rounding_left_knot(e):
                  dom_name="real-delta", functions=funcs)
 
 
+def run_part(rep, tier, part):
+    f = part.split(":")
+    e = E2(rep, tier)
+    exact_obligations(e, int(f[1]), group=tuple(int(x) for x in f[2:]))
+    e.finish()
+
+
+def big_parts(tier):
+    """knot counts decided in parallel subprocesses: (n, number of path groups)"""
+    # one part per f_dx branch pattern (2^(n-2) of them): their difficulty is very uneven, the pool balances them
+    cfg = [(7, 32)] if tier == "quick" else [(5, 8), (6, 16), (7, 32), (8, 64), (9, 128)]
+    J = 6  # and the goals of one pattern in J slices (the all-harmonic patterns carry most of the solver time)
+    return ["exact:%d:%d:%d:%d:%d" % (n, k, K, j, J) for (n, K) in cfg for k in reversed(range(K)) for j in range(J)], [n for (n, _) in cfg]
+
+
 def run(rep, tier):
     e = E2(rep, tier)
-    ns = [3, 4] if tier == "quick" else [3, 4, 5, 6]
+    ns = [3, 4]
     rep.explanation = ("constrained_spline is executed symbolically as a whole (slicing, zips, closures, f_dx, segment) from its MIR "
                        "for each knot count; for every f_dx branch pattern z3 (nlsat) proves over all real knots with strictly "
                        "increasing x the Hermite, C1, harmonic-mean and end-slope identities and that no divisor vanishes; ends "
                        "verbatim in bit-precise FP; left-knot rounding bound of the kernel per monomial.")
-    rep.bounds = {"knots": ns, "outside": "more knots than listed (the glue is the same iterator pipeline; no induction claimed); "
+    parts, bigs = big_parts(tier)
+    rep.bounds = {"knots": ns + bigs, "outside": "more knots than listed (the glue is the same iterator pipeline; no induction claimed); "
                   "rounding bounds at the right knot and for derivatives (conditioning (|x|/dx)^3) are not decided"}
     specs = [("spline", "-", 2 * n, ()) for n in (3, 4, 5)]
     if validate_spline(e, rep.seed):
@@ -270,6 +292,8 @@ def run(rep, tier):
         for n in ns[:2]:
             fp_end_verbatim(e, n)
         rounding_left_knot(e)
+        import parallel
+        parallel.run_parts(rep, tier, parts, mir_text=e.mir_text, sources=e.sources)
     e.finish()
 
 
